@@ -18,6 +18,8 @@ mod nrpn;
 mod polling;
 #[cfg(feature = "cfg_std")]
 mod scanners;
+#[cfg(feature = "cfg_std")]
+mod serde_t;
 mod generated {
     pub mod consts;
 }
@@ -38,6 +40,8 @@ pub fn exec(tag: i64, inp: &[i64]) -> Vec<i64> {
         120 | 130 | 131 | 132 | 140 => polling::exec(tag, inp),
         #[cfg(feature = "cfg_std")]
         150 | 160 | 161 | 162 | 170 => scanners::exec(tag, inp),
+        #[cfg(feature = "cfg_std")]
+        190 | 191 => serde_t::exec(tag, inp),
         _ => vec![-97],
     }
 }
@@ -65,6 +69,8 @@ fn gen(prop: &str, tier: Tier, seed: u64, em: &mut Emitter) {
         "C16" => scanners::gen_c16(tier, seed, em),
         #[cfg(feature = "cfg_std")]
         "C17" => scanners::gen_c17(tier, seed, em),
+        #[cfg(feature = "cfg_std")]
+        "C19" => serde_t::gen_c19(tier, seed, em),
         _ => {
             eprintln!("unknown property {}", prop);
             std::process::exit(2);
